@@ -168,3 +168,34 @@ Proof.
   destruct (sched_exclusive gen_cfg gen_t0 gen_evs gen_selectors_in_range) as [[o [what [Ho Hp]]]|H]; [|exact H].
   exfalso. exact (gen_no_panic o what Ho Hp).
 Qed.
+
+(* ---- the monitor of Spec.v on the model's own traces ------------------------------------------------------------------------
+   [model_trace cfg t0 evs] (ProofsMon2.v) is the list of (event, observations, observed state) triples the model produces
+   for the event list; [trace_ok] folds the very [Spec.p_step] over such a list, starting from [mon0] and the empty dump,
+   exactly as Corr.check_case does with the implementation's trace.  [p_step] reports the first non-empty of nineteen
+   components ([p_components], ProofsMon1.v, with [p_step_components]: p_step = (pm_final .., first_nonempty (p_components ..)));
+   [trace_sub sel] is the same fold looking only at the components whose positions are in [sel]
+   ([trace_sub_all]: all nineteen positions give [trace_ok]; [trace_sub_app]: selections combine).
+   Proved so far: the panic component and the five state predicates, positions [sel_state] = 0 (e_panic), 1 (c01_dump),
+   6 (c03_dump), 7 (c03_waited), 8 (c04_dump), 17 (c07_background). *)
+Theorem p_step_components : forall cfg t0 m pre e o post,
+  p_step cfg t0 m pre e o post = (pm_final cfg post e o m, first_nonempty (p_components cfg t0 m pre e o post)).
+Proof. exact p_step_components. Qed.
+Print Assumptions p_step_components.
+
+Theorem trace_sub_all : forall cfg t0 tr m pre, trace_sub_from (seq 0 19) cfg t0 m pre tr = trace_ok_from cfg t0 m pre tr.
+Proof. exact trace_sub_all. Qed.
+Print Assumptions trace_sub_all.
+
+Theorem monitor_state_components_on_model : forall cfg t0 evs,
+  selectors_in_range (init cfg t0) evs -> fresh_calls [] evs -> bg_scripts_ok evs ->
+  panicked (snd (run (init cfg t0) evs)) \/ trace_sub sel_state cfg t0 (model_trace cfg t0 evs) = true.
+Proof. exact monitor_state_components_on_model. Qed.
+Print Assumptions monitor_state_components_on_model.
+
+(* the whole monitor (all nineteen components) accepts the model's trace of the generated history, and of the history
+   with the cyclic order on idle children (by computation) *)
+Example generated_history_trace_ok : trace_ok gen_cfg gen_t0 (model_trace gen_cfg gen_t0 gen_evs) = true.
+Proof. vm_compute. reflexivity. Qed.
+Example cyclic_history_trace_ok : trace_ok c04w_cfg 1000 (model_trace c04w_cfg 1000 c04w_evs) = true.
+Proof. vm_compute. reflexivity. Qed.
